@@ -133,3 +133,53 @@ func vfC18Length(c int) {
 		vfAssert("haversine-length-sum", LengthHaversine(orb.LineString(p)) == DistanceHaversine(p[1], p[0])+DistanceHaversine(p[2], p[1]))
 	}
 }
+
+// ---- numerical catalogue: concrete point pairs, bearings and distances through the real code ----
+// The accuracy clauses are transcendental (no solver decision possible); these cases run the real
+// functions on a catalogue that includes both argument orders, pairs straddling the antimeridian,
+// high latitudes and both hemispheres, and check the property's identities with its tolerances.
+
+var vfGeoPts = []orb.Point{
+	{0, 0}, {10, 20}, {-170, 10}, {170, 20}, {179.97, 30}, {-179.97, 30}, {-122.4, 37.8}, {151.2, -33.9},
+	{0.01, 60}, {0.05, 60.02}, {179.999, -45}, {-179.999, -45.01}, {30, 88}, {-150, 88.5}, {45, -89}, {12.5, 41.9},
+}
+
+func vfC18Catalogue_N(tier int) int { return len(vfGeoPts) * len(vfGeoPts) }
+func vfC18Catalogue_Label(c int) string {
+	return "pair#" + strconv.Itoa(c/len(vfGeoPts)) + "," + strconv.Itoa(c%len(vfGeoPts))
+}
+
+func vfNearRel(a, b, rel float64) bool {
+	d := a - b
+	if d < 0 {
+		d = -d
+	}
+	m := a
+	if m < 0 {
+		m = -m
+	}
+	return d <= rel*(1+m)
+}
+
+func vfC18Catalogue(c int) {
+	a, b := vfGeoPts[c/len(vfGeoPts)], vfGeoPts[c%len(vfGeoPts)]
+	vfReach("catalogue")
+	h := DistanceHaversine(a, b)
+	vfAssert("haversine-symmetric", h == DistanceHaversine(b, a) || vfNearRel(h, DistanceHaversine(b, a), 1e-12))
+	vfAssert("haversine-at-most-half-circumference", h <= 3.141592653589794*orb.EarthRadius)
+	d := Distance(a, b)
+	vfAssert("distance-symmetric", vfNearRel(d, Distance(b, a), 1e-12))
+	if h < 10000 && a[1] < 80 && a[1] > -80 && b[1] < 80 && b[1] > -80 {
+		vfAssert("fast-distance-agrees-with-haversine-under-10km", vfNearRel(d, h, 1e-5))
+	}
+	if c/len(vfGeoPts) != c%len(vfGeoPts) {
+		m := Midpoint(a, b)
+		vfAssert("midpoint-equidistant", vfNearRel(DistanceHaversine(a, m), DistanceHaversine(m, b), 1e-6))
+		vfAssert("midpoint-halves-the-distance", vfNearRel(2*DistanceHaversine(a, m), h, 1e-6))
+	}
+	// travelling a distance on a bearing lands at that haversine distance from the start
+	brg := float64((c*37)%360 - 180)
+	dist := float64((c*7919)%5000) * 1000
+	p := PointAtBearingAndDistance(a, brg, dist)
+	vfAssert("destination-at-the-given-distance", vfNearRel(DistanceHaversine(a, p), dist, 1e-6))
+}
